@@ -36,7 +36,8 @@ def scan : Seq → Option (Tok × Seq)
     else
       let lit := c :: cs.takeWhile identChar
       let rest := afterRun (cs.dropWhile identChar)
-      let u := lit.map upper
+      -- `switch strings.ToUpper(lit)`: rune-wise (U+0131 / U+017F fold into `I` / `S`); on ASCII it is `lit.map upper`
+      let u := Utf8.upperLit lit
       let t := if (parseInt64 lit).isSome then Tok.num lit
         else if u == [67, 76, 85, 83, 84, 65, 76] || u == [67, 76, 85, 83, 84, 65, 76, 87] then .clustal
         else .ident lit
@@ -185,10 +186,10 @@ def parseR (checksRowIndex : Bool) (o : POpts) (bs : Seq) : R Aln := do
 def parse (checksRowIndex : Bool) (o : POpts) (bs : Seq) : Outcome Aln :=
   toOutcome (parseR checksRowIndex o bs)
 
-/-- `Parse()` on the raw input, ALL byte strings; `none` = no claim (the input holds U+0131 / U+017F, which
-`strings.ToUpper` maps to `I` / `S` in the keyword test) -/
-def parseBytes (checksRowIndex : Bool) (o : POpts) (bs : Seq) : Option (Outcome Aln) :=
-  if Utf8.hasFoldRune bs then none else some (parse checksRowIndex o (Utf8.norm bs))
+/-- `Parse()` on the raw input, ALL byte strings (the keyword test of `scan` upper-cases rune-wise, so U+0131 / U+017F
+are covered: `cluſtal` is the keyword) -/
+def parseBytes (checksRowIndex : Bool) (o : POpts) (bs : Seq) : Outcome Aln :=
+  parse checksRowIndex o (Utf8.norm bs)
 
 /-! ### writer -/
 
